@@ -308,6 +308,11 @@ pub fn step(ctx: &BuildContext<TestBp>, layers: &Path, scratch: &Path, names: &[
                                 let res = on_ref!(r => r.write_env(&le));
                                 // LayerRef::read_env is by contract LayerEnv::read_from_layer_dir (decided by C03/C10) on the
                                 // layer's own directory; a difference is a failure of the code under test (reported as panic)
+                                // (not under fault injection: the two reads are separate calls and only one of them is failed)
+                                if std::env::var_os("VERIF_FAULT_K").is_some() {
+                                    writes.push(json!({"ok": res.is_ok(), "err": res.err(), "post": abstract_store(&layers, &names)}));
+                                    continue;
+                                }
                                 let via_ref = on_ref!(r => r.read_env());
                                 let base = match lref {
                                     Ref::Cached(r) => r.path(),
